@@ -242,14 +242,28 @@ func vfReplayMain(t vfTB, hs map[string]func()) {
 const modelSource = `package vfmodel
 
 import (
+	"crypto/elliptic"
 	"crypto/sha256"
 	"hash"
+	"math/big"
 	"reflect"
 
 	"github.com/decred/dcrd/crypto/ripemd160"
 )
 
 var _ = reflect.TypeOf
+
+// Curve is an opaque stand-in for the value of elliptic.P256() (identity only; the
+// curve arithmetic is outside what the engine encodes).
+type Curve struct{}
+
+func (Curve) Params() *elliptic.CurveParams                          { panic("vfmodel: curve arithmetic not modelled") }
+func (Curve) IsOnCurve(x, y *big.Int) bool                           { panic("vfmodel: curve arithmetic not modelled") }
+func (Curve) Add(x1, y1, x2, y2 *big.Int) (*big.Int, *big.Int)       { panic("vfmodel: curve arithmetic not modelled") }
+func (Curve) Double(x1, y1 *big.Int) (*big.Int, *big.Int)            { panic("vfmodel: curve arithmetic not modelled") }
+func (Curve) ScalarMult(x1, y1 *big.Int, k []byte) (*big.Int, *big.Int) { panic("vfmodel: curve arithmetic not modelled") }
+func (Curve) ScalarBaseMult(k []byte) (*big.Int, *big.Int)           { panic("vfmodel: curve arithmetic not modelled") }
+func P256() elliptic.Curve                                           { return Curve{} }
 
 func vfSha256(b []byte) [32]byte { return sha256.Sum256(b) }
 func vfRipemd160(b []byte) (r [20]byte) {
